@@ -654,6 +654,18 @@ def _schedule_rewrites(
             # In order to not replace anything, we need to make sure the range is empty.
             before = core.Range(before.start, before.start)
 
+            # The column is that of the block the code goes into. The line it is inserted at may
+            # belong to an outer block, or be blank: it has no such column to insert at, so
+            # the code gets a line of its own above it, indented as requested.
+            line_start = 1 + max(
+                source.rfind("\n", 0, before.start), source.rfind("\r", 0, before.start)
+            )
+            line = source[line_start:].splitlines()[0] if source[line_start:] else ""
+            col_offset = getattr(after, "col_offset", 0)
+            if line[:col_offset].strip(" ") or len(line) < col_offset:
+                before = core.Range(line_start, line_start)
+                after = textwrap.indent(core.unparse(after).rstrip(), " " * col_offset) + "\n"
+
         if after is None:
             after = ""
         return (before, after, transaction)
